@@ -9,6 +9,7 @@ class C02(DevProp):
     pid = "C02"
     fail_term = "c02_failures k"
     mis_term = "notes_mismatch k"
+    soak = True
     monitor_name = ("C02 monitor (press messages are Note On/Off of the pair resolved in the observed state; release messages are Note Off of "
                     "the pair recorded at the press; non-panic action keys are silent)")
     correspondence_name = "C02 view (messages of every step that is not a panic press)"
@@ -40,12 +41,54 @@ class C02(DevProp):
         return None
 
     def gen(self, rng, tier):
-        cases = c01.templates(rng)
+        cases = c01.templates(rng) + silent_repress_templates()
         for i in range(260 if tier == "quick" else 8000):
-            cfg = devgen.gen_config(rng, n_maps=rng.choice([2, 3, 3]), with_exit=(rng.random() < 0.15))
-            h = devgen.gen_history(rng, cfg, rng.randint(15, 80), p_action=rng.choice([0.5, 0.6, 0.7]), max_down=5)
-            cases.append({"cfg": cfg, "abs": [], "events": h + devgen.release_all(h), "tag": "random"})
+            cases.append(self.soak_case(rng))
         return cases
+
+    def soak_case(self, rng):
+        """one case of the 'random' stream (also the stream of the extracted-model soak)"""
+        cfg = devgen.gen_config(rng, n_maps=rng.choice([2, 3, 3]), with_exit=(rng.random() < 0.15))
+        h = devgen.gen_history(rng, cfg, rng.randint(15, 80), p_action=rng.choice([0.5, 0.6, 0.7]), max_down=5)
+        return {"cfg": cfg, "abs": [], "events": h + devgen.release_all(h), "tag": "random"}
+
+
+def silent_repress_templates():
+    """A key released while another holder of its pitch remains (or alone), then pressed again where the press is SILENT (transposed out
+    of range, or switched to a mapping in which the key is unmapped / mapped elsewhere) and released: that release belongs to a press
+    that produced nothing, so it must produce nothing; every other key's Note Off must still carry its own press's pitch."""
+    def k(code, val):
+        return {"t": "k", "sub": "", "code": code, "val": val}
+    A, B, C = 16, 17, 18
+    UP, DOWN, MUP, MDOWN = 59, 60, 61, 62
+    cases = []
+    for cmode in devgen.CMODES:
+        for shared in (True, False):
+            m0 = [{"sub": "", "code": A, "note": 60, "off": 0}, {"sub": "", "code": B, "note": 60 if shared else 64, "off": 0},
+                  {"sub": "", "code": C, "note": 60, "off": 0}]
+            m1 = [{"sub": "", "code": B, "note": 60 if shared else 64, "off": 0}, {"sub": "", "code": C, "note": 60, "off": 0}]   # A unmapped
+            cfg = {"mappings": [{"name": "M0", "midi": m0, "analog": [], "dz": [], "defdz": [], "subs": []},
+                                {"name": "M1", "midi": m1, "analog": [], "dz": [], "defdz": [], "subs": []}],
+                   "actions": [{"code": UP, "action": "octave_up"}, {"code": DOWN, "action": "octave_down"},
+                               {"code": MUP, "action": "mapping_up"}, {"code": MDOWN, "action": "mapping_down"}],
+                   "exitseq": [], "cmode": cmode, "octave": 0, "semitone": 0, "channel": 1, "mapping": 0, "velocity": 64}
+            silent = {"octave": ([k(UP, 1), k(UP, 0)] * 6, [k(DOWN, 1), k(DOWN, 0)] * 6),
+                      "mapping": ([k(MUP, 1), k(MUP, 0)], [k(MDOWN, 1), k(MDOWN, 0)])}
+            for how, (go, back) in silent.items():
+                for head in ([k(A, 1), k(B, 1), k(A, 0)], [k(B, 1), k(A, 1), k(A, 0)], [k(A, 1), k(A, 0), k(B, 1)], [k(A, 1), k(A, 0)]):
+                    for mid in ([k(A, 1), k(A, 0)], [k(A, 1)] + back + [k(A, 0)] + go):
+                        for tail in ([k(B, 0), k(C, 1), k(C, 0)], [k(C, 1), k(B, 0), k(C, 0)], [k(B, 0)]):
+                            ev = head + go + mid + back + tail + [k(A, 1), k(A, 0), k(C, 1), k(C, 0)]
+                            # keep per-key alternation: B may not be down in heads that never press it
+                            down, ok, out = set(), True, []
+                            for e in ev:
+                                if e["code"] in (A, B, C):
+                                    if e["val"] == 1 and e["code"] in down or e["val"] == 0 and e["code"] not in down:
+                                        continue
+                                    (down.add if e["val"] == 1 else down.discard)(e["code"])
+                                out.append(e)
+                            cases.append({"cfg": cfg, "abs": [], "events": out, "tag": "silent-repress-" + how})
+    return cases
 
 
 def run(run_):
